@@ -317,7 +317,18 @@ impl Monitor for C04 {
         let k = variants(which, n, &mut rng);
         let class = *rng.pick(&CLASSES);
         let len = if exact { (6 * n + 12).min(200) } else { 6 * n + rng.usize(20, cfg.tier.pick(300, 1500)) };
-        let xs = gen::gen(class, n, len, &mut rng);
+        let mut xs = gen::gen(class, n, len, &mut rng);
+        // Ema, interval and recursion clauses at f64, one trial in six: values of both signs at up to
+        // 0.7 x the largest finite f64 (an average of finite values is finite; a difference x - e of
+        // two of them need not be)
+        if !exact && which == 1 && (clause == 0 || clause == 4) && rng.chance(1, 6) {
+            let top = 0.7 * f64::MAX;
+            for (i, x) in xs.iter_mut().enumerate() {
+                let m = top * (0.5 + 0.5 * rng.unit53());
+                *x = if (i / rng.usize(1, 3).max(1)) % 2 == 0 { m } else { -m };
+            }
+            out.count("ema_trials_near_the_largest_finite_value", 1);
+        }
         out.key(mix(hash_str(&format!("{:?}{}{}", k, clause, exact)), gen::hash_f64s(&xs)));
         if idx % 149 == 0 {
             out.sample(format!("{} clause {} at {} on {:?}: {} values", Spec::leaf(k).show(), CLAUSES[clause], if exact { "Xq" } else { "f64" }, class, xs.len()));
